@@ -676,6 +676,9 @@ func runC08(ctx *Ctx) error {
 	if err := corrFieldTags(ctx, ctx.N(2500, 30000)); err != nil {
 		return err
 	}
+	if err := c08ParamObject(ctx); err != nil {
+		return err
+	}
 	frs, err := c08FieldRows()
 	if err != nil {
 		return err
